@@ -118,9 +118,9 @@ func runChild(bin string, args []string, env []string, logPath string, watchdog 
 }
 
 func caseTimeout(p *Prop, tier string, mult int) time.Duration {
-	sec := 20
+	sec := 60
 	if tier == "thorough" {
-		sec = 120
+		sec = 300
 	}
 	if p.CaseTimeoutSec != nil {
 		if v := p.CaseTimeoutSec(tier); v > 0 {
